@@ -162,7 +162,8 @@ def render_py(m):
 
 def lexer_load(text):
     """tokens coca's Python lexer leaves queued in its 32-slot ring buffer: one per logical line plus
-    one per INDENT/DEDENT; the buffer's growth path is broken, so the generators stay below it"""
+    one per INDENT/DEDENT. The buffer's growth path was broken (modules above ~30 lines were mis-tokenised);
+    repaired in /repo by f146bde, so the generators no longer stay below it (see the py_long stream)"""
     load, stack = 1, [0]
     for ln in text.split("\n"):
         if not ln.strip():
@@ -176,7 +177,7 @@ def lexer_load(text):
                 stack.pop(); load += 1
     return load + len(stack)
 
-MAX_LOAD = 26
+MAX_LOAD = 10 ** 9
 
 def render(inp):
     return render_go(inp[1]) if inp[0].startswith("go") else render_py(inp[1])
@@ -643,6 +644,18 @@ def cases(seed, tier):
            lambda r: gen_go(r, 1, kinds=("struct",), order="after", in_if=True, n_funcs=2, methods_per_type=2), "go")
     # Python
     stream("py_plain", 80 if q else 4000, lambda r: gen_py(r), "py")
+    # modules well above the 32 slots of the lexer's token ring: many classes / functions, up to a few hundred lines
+    def py_long(r):
+        items = [gen_pyimport(r) for _ in range(r.randint(0, 3))]
+        n = r.randint(12, 60)
+        decls = []
+        for i in range(n):
+            if r.random() < 0.3:
+                decls.append(gen_pynode(r, True, r.choice(PY_CLASSES) + str(i), 0, r.random() < 0.3, r.random() < 0.3))
+            else:
+                decls.append(gen_pynode(r, False, "fn%d" % i, 0, r.random() < 0.3, False))
+        return items + [["node", d] for d in decls]
+    stream("py_long", 25 if q else 600, py_long, "py")
     stream("py_import_list", 12 if q else 400, lambda r: gen_py(r, imp_list=True), "py")
     stream("py_nested_def", 15 if q else 500, lambda r: gen_py(r, nested_def=True, n_decl=1), "py")
     stream("py_nested_class", 12 if q else 400, lambda r: gen_py(r, nested_class=True, n_decl=1), "py")
